@@ -594,6 +594,8 @@ class Impl:
             srcm = 'a%d' % src
             f = self.handles[srcm][u]
             return self._h(m, self.amgr[srcm].copy(f, a))
+        if name == 'assert_consistent':
+            return a.assert_consistent()
         if name == 'json_dump':
             roots = args[0]
             if isinstance(roots, dict):
@@ -849,6 +851,9 @@ class Impl:
                 pass
             os.rmdir(d)
         return parse_dot(text)
+
+    def op_assert_consistent(self, b):
+        return b.assert_consistent()
 
     def op_shutdown(self, b):
         try:
